@@ -7,7 +7,8 @@ WT=/tmp/wt-$P; OUT=$WT/seed_out
 cd $WT
 echo "--- suite with change:"; PYTHONPATH=$WT/src /venv/bin/python -m pytest -q -p no:cacheprovider --timeout=900 --deselect tests/test_e2e.py 2>&1 | tail -1
 echo "--- demo with change:"; (cd $OUT && PYTHONPATH=$WT/src /venv/bin/python demo.py 2>&1 | tail -3; echo "exit=${PIPESTATUS[0]}")
-git stash -q; echo "--- demo without change:"; (cd $OUT && PYTHONPATH=$WT/src /venv/bin/python demo.py 2>&1 | tail -2; echo "exit=${PIPESTATUS[0]}"); git stash pop -q
+git diff -- src | diff -q - $OUT/patch.diff >/dev/null || echo "WARNING: worktree diff differs from patch.diff"
+git apply -R $OUT/patch.diff; echo "--- demo without change:"; (cd $OUT && PYTHONPATH=$WT/src /venv/bin/python demo.py 2>&1 | tail -2; echo "exit=${PIPESTATUS[0]}"); git apply $OUT/patch.diff
 echo "--- checks against the change:"
 [ -z "$(git -C /repo status --porcelain)" ] || { echo "/repo dirty"; exit 3; }
 git -C /repo apply $OUT/patch.diff || { echo "patch does not apply to /repo"; exit 3; }
